@@ -180,16 +180,23 @@ pub fn rec_bits(a: &Args, out: &mut Out) {
                 let res = put_dyn(&mut asm, c.kind, c.carrier, c.v, c.w);
                 let ok = match &res {
                     Ok(b) => J::from(*b),
-                    Err(p) => J::from(format!("panic:{}", p)),
+                    Err(_) => J::from(false),
                 };
-                if c.any {
-                    // asm still borrows buf: the buffer content is logged by the AsmEnd of this session and
-                    // by an extra checkpoint right after this put
+                let panic = match &res {
+                    Ok(_) => String::new(),
+                    Err(p) => p.clone(),
+                };
+                if c.any && !panic.is_empty() {
+                    // a panic on a value that does not fit its width is outside C07 (totality of encoding is C09):
+                    // recorded as an observation, the session is abandoned
+                    out.emit(json!({"ev": "PutAnyPanic", "kind": c.kind, "carrier": c.carrier, "w": c.w, "vbits": bits_of(c.v, c.carrier), "panic": panic}));
+                } else if c.any {
+                    // asm still borrows buf: the buffer content is logged by the AsmEnd of this session
                     out.emit(json!({"ev": "PutAny", "kind": c.kind, "carrier": c.carrier, "w": c.w,
-                        "vbits": bits_of(c.v, c.carrier), "ok": ok, "off_after": asm.offset()}));
+                        "vbits": bits_of(c.v, c.carrier), "ok": ok, "panic": panic, "off_after": asm.offset()}));
                 } else {
                     out.emit(json!({"ev": "Put", "kind": c.kind, "carrier": c.carrier, "w": c.w,
-                        "vbits": bits_of(c.v, c.carrier), "ok": ok, "off_after": asm.offset()}));
+                        "vbits": bits_of(c.v, c.carrier), "ok": ok, "panic": panic, "off_after": asm.offset()}));
                 }
                 steps += 1;
                 if c.any {
@@ -220,12 +227,12 @@ pub fn rec_bits(a: &Args, out: &mut Out) {
         reads.push(Case { kind: "u", carrier: 16, w: *pick(&mut r, &[1usize, 7, 9, 16]), v: 0, any: false });
         for c in reads {
             let res = parse_dyn(&mut par, c.kind, c.carrier, c.w);
-            let (ok, vb) = match &res {
-                Ok(Some(v)) => (J::from(true), bits_of(*v, c.carrier)),
-                Ok(None) => (J::from(false), json!([])),
-                Err(p) => (J::from(format!("panic:{}", p)), json!([])),
+            let (ok, vb, panic) = match &res {
+                Ok(Some(v)) => (true, bits_of(*v, c.carrier), String::new()),
+                Ok(None) => (false, json!([]), String::new()),
+                Err(p) => (false, json!([]), p.clone()),
             };
-            out.emit(json!({"ev": "Parse", "kind": c.kind, "carrier": c.carrier, "w": c.w, "ok": ok, "vbits": vb, "off_after": par.offset()}));
+            out.emit(json!({"ev": "Parse", "kind": c.kind, "carrier": c.carrier, "w": c.w, "ok": ok, "panic": panic, "vbits": vb, "off_after": par.offset()}));
         }
         let _ = buf0;
     }
